@@ -359,13 +359,12 @@ func monC16(tr *Trace, br map[string]int) (out []Violation) {
 	}
 	walk(tr, func(c *ctxStep) {
 		if c.op[0] == "setprices" && len(c.op) > 1 && c.res[0] == "ok" {
-			// governance changed the settlement gas prices: the list is kept in denomination order
+			// governance changed the settlement gas prices: the list is kept as given
 			gasPrices = nil
 			for _, kvp := range strings.Split(c.op[1], ",") {
 				kv := strings.SplitN(kvp, ":", 2)
 				gasPrices = append(gasPrices, gasPrice{kv[0], dec18(kv[1])})
 			}
-			sort.Slice(gasPrices, func(i, j int) bool { return gasPrices[i].denom < gasPrices[j].denom })
 			br["c16:prices-changed"]++
 			return
 		}
